@@ -157,6 +157,9 @@ def conditions(tier: str) -> list[core.Cond]:
             for fx in shards:
                 conds.append(core.Cond(f"stream n={n} traces<={T} filter={json.dumps(f, sort_keys=True)} shard={fx}", HARNESS, "check",
                                        {"n": n, "T": T, "filter": f, "batch": 2, "fix": fx}, tmo))
+    for n0 in (0, 1):
+        conds.append(core.Cond(f"stream n=4 traces<=3, a span whose parent lives in another trace (shard {n0})", HARNESS, "check",
+                               {"n": 4, "T": 3, "filter": None, "batch": 2, "cross": 1, "fix": {"r1": 1, "n0": n0}}, tmo))
     conds.append(core.Cond("stream n=4 traces<=2 name-filter", HARNESS, "check", {"n": 4, "T": 2, "filter": None, "names": ["wfB"], "batch": 1}, tmo))
     conds.append(core.Cond("twin", HARNESS, "twin", {"n": 4, "T": 2, "filter": None, "batch": 2}, tmo, expect_violation=True))
     return conds
